@@ -8,9 +8,11 @@ Source: /repo/src/Imath/ImathMatrixAlgo.cpp
   * `jacobiRotateRight<j,k>` / `jacobiRotation` of the symmetric eigen solver (3×3 998-1054, 4×4 1056-1111)
   * index selection of `maxEigenVector` / `minEigenVector` (1205-1239)
 
-The iteration to convergence (`do … while (maxOffDiag > absTol && numIter < maxIter)`) is NOT modelled:
-the theorems are about ONE rotation (an invariant, hence any number of them) and about the post-passes;
-convergence and accuracy are measured (harness/corr/c12_residue.cpp).
+The iteration to convergence (`do … while (maxOffDiag > absTol && numIter < maxIter)`) IS modelled (section `loops`: sweeps over
+all pairs, `changed` aggregation, the stopping test, `maxIter = 20`, reading `S` off the diagonal, the post-passes, and for the
+eigen solver the end-of-sweep update `S[i] += Z[i]; A[i][i] = S[i]` with `Z` reset per sweep); the driver runs exactly these
+definitions.  The theorems (Lemmas/C12Loops.lean) are the loop INVARIANTS and the bookkeeping (`S` = diagonal of the rotated
+matrix); that the loop CONVERGES, and its accuracy, are measured (harness/corr/c12_residue.cpp).
 
 Matrices are functions `Nat → Nat → α` (row, column), so that ONE definition mirrors the 3×3 template
 (`l` = the third index) and the 4×4 body (loops over `l ∉ {j,k}`): "every other row/column".
@@ -230,4 +232,133 @@ def minIdx (n : Nat) (S : Nat → α) : Nat :=
   (List.range n).foldl (fun best i => if i = 0 then best else if sabs (S i) < sabs (S best) then i else best) 0
 
 end eig
+/-! ## The solver loops (`twoSidedJacobiSVD` 3×3 698-798 / 4×4 800-913, `jacobiEigenSolver` 1113-1203)
+
+State is kept as functions `Nat → Nat → α`; `matFreeze` / `vecFreeze` re-tabulate a function into an array after every rotation so
+that the executable does not re-evaluate a tower of closures (they are the identity: Lemmas/C12Loops.lean `matFreeze_eq`). -/
+section loops
+variable {α : Type} [Add α] [Sub α] [Mul α] [Div α] [Neg α] [LT α] [LE α] [DecidableLT α] [DecidableLE α] [BEq α]
+  [OfNat α 0] [OfNat α 1] [OfNat α 2] [Inhabited α]
+
+@[noinline] def matArr (n : Nat) (f : Mat α) : Array α := (Array.range (n * n)).map fun t => f (t / n) (t % n)
+@[noinline] def vecArr (n : Nat) (f : Nat → α) : Array α := (Array.range n).map f
+/-- a function whose `n × n` block is read from the table `a` -/
+@[noinline] def matOfArr (n : Nat) (f : Mat α) (a : Array α) : Mat α := fun i j => if i < n ∧ j < n then a[n * i + j]! else f i j
+@[noinline] def vecOfArr (n : Nat) (f : Nat → α) (a : Array α) : Nat → α := fun i => if i < n then a[i]! else f i
+/-- the same function, its `n × n` block tabulated (the table is built when `matFreeze n f` is evaluated, not per access) -/
+def matFreeze (n : Nat) (f : Mat α) : Mat α := matOfArr n f (matArr n f)
+def vecFreeze (n : Nat) (f : Nat → α) : Nat → α := vecOfArr n f (vecArr n f)
+
+def identM : Mat α := fun i j => if i = j then 1 else 0
+
+/-- the pairs `(j, k)`, `j < k < n`, in the order of the C++ sweeps -/
+def pairs (n : Nat) : List (Nat × Nat) :=
+  if n == 3 then [(0, 1), (0, 2), (1, 2)] else [(0, 1), (0, 2), (0, 3), (1, 2), (1, 3), (2, 3)]
+
+/-- `maxOffDiag`: `result = std::max (result, std::abs (A[i][j]))` over i ≠ j, row-major -/
+def maxOffDiag (n : Nat) (A : Mat α) : α :=
+  (List.range n).foldl (fun r i => (List.range n).foldl (fun r j => if i != j then smax r (sabs (A i j)) else r) r) 0
+/-- `maxOffDiagSymm`: upper triangle only -/
+def maxOffDiagSymm (n : Nat) (A : Mat α) : α :=
+  (List.range n).foldl (fun r i => (List.range n).foldl (fun r j => if i < j then smax r (sabs (A i j)) else r) r) 0
+
+def freezeSVD (n : Nat) (st : SVDState α) : SVDState α :=
+  let aArr := matArr n st.A
+  let a := matOfArr n st.A aArr
+  let uArr := matArr n st.U
+  let u := matOfArr n st.U uArr
+  let vArr := matArr n st.V
+  let v := matOfArr n st.V vArr
+  ⟨a, u, v⟩
+
+/-- one sweep of `twoSidedJacobiSVD`: every pair once; returns (some rotation changed the matrix, state) -/
+def svdSweep (tol : α) (sqrt : α → α) (n : Nat) (st : SVDState α) : Bool × SVDState α :=
+  (pairs n).foldl (fun (acc : Bool × SVDState α) jk =>
+    let r := twoSidedJacobiRotation tol sqrt jk.1 jk.2 acc.2
+    (r.1 || acc.1, freezeSVD n r.2)) (false, st)
+
+/-- `do { ++numIter; sweep; if (!changed) break; } while (maxOffDiag (A) > absTol && numIter < maxIter)`, `maxIter = 20` -/
+def svdLoop (tol : α) (sqrt : α → α) (n : Nat) (absTol : α) : Nat → Nat → SVDState α → SVDState α
+  | 0, _, st => st
+  | fuel + 1, numIter, st =>
+    let numIter := numIter + 1
+    let r := svdSweep tol sqrt n st
+    if !r.1 then r.2
+    else if absTol < maxOffDiag n r.2.A && numIter < 20 then svdLoop tol sqrt n absTol fuel numIter r.2 else r.2
+
+/-- the iteration of `twoSidedJacobiSVD` from `U = V = 1` (`if (absTol != 0)` guards the loop) -/
+def svdIterate (tol : α) (sqrt : α → α) (n : Nat) (A : Mat α) : SVDState α :=
+  let absTol := tol * maxOffDiag n A
+  let st0 : SVDState α := freezeSVD n ⟨A, identM, identM⟩
+  if absTol != 0 then svdLoop tol sqrt n absTol 21 0 st0 else st0
+
+def freezeUSV (n : Nat) (t : USV α) : USV α :=
+  let uArr := matArr n t.U
+  let u := matOfArr n t.U uArr
+  let sArr := vecArr n t.S
+  let s := vecOfArr n t.S sArr
+  let vArr := matArr n t.V
+  let v := matOfArr n t.V vArr
+  ⟨u, s, v⟩
+
+/-- whole `twoSidedJacobiSVD`.  The determinants tested by `forcePositiveDeterminant` are inputs (the harness passes the values
+`U.determinant ()`, `V.determinant ()` the real code computes at that point) -/
+def svdFull (n : Nat) (force : Bool) (detU detV : α) (tol : α) (sqrt : α → α) (A : Mat α) : USV α :=
+  let st := svdIterate tol sqrt n A
+  let t : USV α := freezeUSV n ⟨st.U, fun i => st.A i i, st.V⟩
+  let t := freezeUSV n (if n == 3 then post3 t else post4 t)
+  if force then forcePos (n - 1) detU detV t else t
+
+/-- state of `jacobiEigenSolver` between sweeps: `A` (upper triangle), eigenvalues `S`, eigenvectors `V` -/
+structure EigRun (α : Type) where
+  A : Mat α
+  S : Nat → α
+  V : Mat α
+
+def freezeEig (n : Nat) (st : EigState α) : EigState α :=
+  let aArr := matArr n st.A
+  let a := matOfArr n st.A aArr
+  let vArr := matArr n st.V
+  let v := matOfArr n st.V vArr
+  let zArr := vecArr n st.Z
+  let z := vecOfArr n st.Z zArr
+  ⟨a, v, z⟩
+
+/-- one sweep of the eigen solver: `Z = 0`, then every pair once -/
+def eigSweep (tol : α) (sqrt : α → α) (n : Nat) (A V : Mat α) : Bool × EigState α :=
+  (pairs n).foldl (fun (acc : Bool × EigState α) jk =>
+    let r := jacobiRotation tol sqrt n jk.1 jk.2 acc.2
+    (r.1 || acc.1, freezeEig n r.2)) (false, ⟨A, V, fun _ => 0⟩)
+
+/-- the end-of-sweep update `for i: A[i][i] = S[i] += Z[i]` -/
+def eigUpdate (n : Nat) (st : EigRun α) (r : EigState α) : EigRun α :=
+  let SpArr := vecArr n (fun i => st.S i + r.Z i)
+  let S' := vecOfArr n (fun i => st.S i + r.Z i) SpArr
+  let ApArr := matArr n (fun i j => if i = j ∧ i < n then S' i else r.A i j)
+  let A' := matOfArr n (fun i j => if i = j ∧ i < n then S' i else r.A i j) ApArr
+  ⟨A', S', r.V⟩
+
+def eigLoop (tol : α) (sqrt : α → α) (n : Nat) (absTol : α) : Nat → Nat → EigRun α → EigRun α
+  | 0, _, st => st
+  | fuel + 1, numIter, st =>
+    let numIter := numIter + 1
+    let r := eigSweep tol sqrt n st.A st.V
+    let st' := eigUpdate n st r.2
+    if !r.1 then st'
+    else if absTol < maxOffDiagSymm n st'.A && numIter < 20 then eigLoop tol sqrt n absTol fuel numIter st' else st'
+
+/-- whole `jacobiEigenSolver`: `S` starts as the diagonal of `A`, `V = 1` -/
+def eigFull (n : Nat) (tol : α) (sqrt : α → α) (A : Mat α) : EigRun α :=
+  let a0Arr := matArr n A
+  let a0 := matOfArr n A a0Arr
+  let s0Arr := vecArr n (fun i => A i i)
+  let s0 := vecOfArr n (fun i => A i i) s0Arr
+  let v0Arr := matArr n identM
+  let v0 := matOfArr n identM v0Arr
+  let st0 : EigRun α := ⟨a0, s0, v0⟩
+  let absTol := tol * maxOffDiagSymm n A
+  if absTol != 0 then eigLoop tol sqrt n absTol 21 0 st0 else st0
+
+end loops
+
 end ImathVerif.Jacobi
